@@ -5,6 +5,7 @@
 #![allow(dead_code)]
 
 mod cer;
+mod ceremony;
 mod core;
 mod model;
 mod props;
